@@ -610,7 +610,7 @@ def load_corpus():
 def main():
     chk = Check("C03", groups=["replay"])
     chk.build_props()
-    n_cases = 1500 if chk.tier == "quick" else 30000
+    n_cases = 1500 if chk.tier == "quick" else 15000
     cases = load_corpus()
     n_corpus = len(cases)
     for i in range(n_cases):
